@@ -11,7 +11,7 @@ import traceback
 from . import common
 from .common import Ctx, ToolFailure, ensure_built, finish
 
-ALL_DRIVERS = ["drv_ids"]
+ALL_DRIVERS = ["drv_ids", "drv_cmd", "drv_ph", "drv_db", "drv_sh", "drv_misc", "drv_trk", "drv_e2e"]
 
 
 def all_props():
